@@ -27,7 +27,14 @@ from ..overload import Ambiguous, HybridModel, InternalError, Model, family
 
 
 def universe(T, thorough: bool):
-    base = list(T.INT_SUBTYPES) + [DT("Int")] + [t for t in T.FLOAT_SUBTYPES] + [DT("Float")]
+    # the documented universe, spelled out (not derived from the tables under test: a width missing from INT_SUBTYPES
+    # must show up as an internal error, not shrink the universe)
+    ints = [DT(f"{u}Int{b}") for u in ("U", "") for b in (8, 16, 32, 64)]
+    floats = [DT("Float32"), DT("Float64"), DT("Decimal")]
+    base = ints + [DT("Int")] + floats + [DT("Float")]
+    for t in list(T.INT_SUBTYPES) + list(T.FLOAT_SUBTYPES):
+        if t not in base:
+            base.append(t)
     base += [DT("String"), DT("Bool"), DT("Date"), DT("Datetime"), DT("Time"), DT("Duration"), DT("NullType")]
     seen, out = set(), []
     for t in base:
@@ -107,8 +114,8 @@ def run(chk):
     null_ties: dict[str, int] = {}
     accepted: dict[str, dict] = {}
     ops_mod = cat.star_modules[0]
-    sized_int = [t for t in T.INT_SUBTYPES]
-    sized_float = [t for t in T.FLOAT_SUBTYPES]
+    sized_int = [DT(f"{u}Int{b}") for u in ("U", "") for b in (8, 16, 32, 64)]
+    sized_float = [DT("Float32"), DT("Float64"), DT("Decimal")]
 
     outcomes: dict[str, dict] = {}
 
